@@ -293,6 +293,7 @@ func runC04(w *W) {
 	// --- escapes straddling the 64-byte block in which an index buffer fills (stage-1 state
 	// carried from one buffer round to the next), with a long tail behind
 	w.genFillBlock(fillStep(w), judge)
+	w.genBackslashRuns(judge)
 	// --- layouts: length x start offset, plain content
 	maxLen := 4096
 	for l := 0; l <= maxLen; l++ {
